@@ -294,6 +294,135 @@ class Plan:
         lines.append("}")
         return "\n".join(lines)
 
+    # ------------------------------------------------------------------ hand-written style reference encoding (C03)
+    def reference_program(self):
+        """the plan encoded with helper traits the way one would write it by hand: one helper trait per family whose leading
+        parameters are the family's keys, one helper impl per block, one blanket impl of the trait per family delegating to
+        the helper. Built from the plan's own structure (families/keys/rows), not from anything the macro computes."""
+        assert self.mode == "trait"
+        lines = [self.prelude()]
+        # the trait itself
+        lines.append(self.trait_text())
+        tg_decl, tg_use = [], []
+        for g in self.trait_generics:
+            if g[0] == "lt":
+                tg_decl.append(g[1] + (": " + g[2] if g[2] else ""))
+            elif g[0] == "ty":
+                tg_decl.append(g[1] + (": " + g[2] if g[2] else "") + (" = " + g[3] if g[3] else ""))
+            else:
+                tg_decl.append(f"const {g[1]}: {g[2]}")
+        nlt = sum(1 for g in self.trait_generics if g[0] == "lt")
+        bi = 0
+        fam_names = ["F0", "F1", "F2", "F3", "F4", "F5", "F6", "F7"]
+        for fi, f in enumerate(self.families):
+            nk = len(f.keys)
+            kdecl = [f"K{i}: ?Sized" for i in range(nk)]
+            lts = [d for d, g in zip(tg_decl, self.trait_generics) if g[0] == "lt"]
+            rest = [d for d, g in zip(tg_decl, self.trait_generics) if g[0] != "lt"]
+            hgen = "<" + ", ".join(lts + kdecl + rest) + ">" if (lts or kdecl or rest) else ""
+            items = []
+            for kind, name, has_default in self.items:
+                if kind == "const":
+                    items.append(f"const {name}: &'static str" + (f' = "dflt.{name}"' if has_default else "") + ";")
+                elif kind == "type":
+                    items.append(f"type {name};")
+                elif kind == "fn":
+                    items.append(f"fn {name}() -> &'static str" + (f' {{ "dflt.{name}" }}' if has_default else ";"))
+                elif kind == "ltfn":
+                    items.append(f"fn {name}(x: &'a u8) -> &'a u8;")
+            uns = "unsafe " if self.trait_unsafe else ""
+            lines.append(f"pub {uns}trait H{fi}{hgen}{self.trait_supers}{self.trait_where} {{ {' '.join(items)} }}")
+            # full list of trait arguments of this family (defaults filled in)
+            def full_targs(targs_txt):
+                out = list(targs_txt)
+                for g in self.trait_generics[len(out):]:
+                    out.append(g[3] if g[0] == "ty" and g[3] else "u8")
+                return out
+            # helper impls
+            for mi, m in enumerate(f.members):
+                self_ty, targs, th = self.member_header(f, m)
+                names = m.names
+                txt = self.block_text(bi)
+                # header of the user's block up to the first ` {` is reused: swap the trait reference
+                head, body = txt.split(" { ", 1)
+                targs_txt = full_targs([pr(named(a, names)) for a in targs])
+                row = []
+                for ki, k in enumerate(f.keys):
+                    if m.row[ki] is not None:
+                        row.append(pr(named(m.row[ki], names)))
+                    else:
+                        d = self.dtraits[k.dt]
+                        da = [pr(named(subst(a, th), names)) for a in k.dargs]
+                        row.append(f"<{pr(named(subst(k.bounded, th), names))} as {d.name}{'<' + ', '.join(da) + '>' if da else ''}>::{k.assoc}")
+                lt_args = targs_txt[:nlt]
+                hargs = lt_args + row + targs_txt[nlt:]
+                old_ref = self.trait_name + ("<" + ", ".join(pr(named(a, names)) for a in targs) + ">" if targs else "")
+                new_ref = f"H{fi}" + ("<" + ", ".join(hargs) + ">" if hargs else "")
+                head = head.replace(f" {old_ref} for ", f" {new_ref} for ", 1)
+                lines.append(head + " { " + body)
+                bi += 1
+            # main impl over the family's own parameters
+            fn = fam_names[: f.nparams]
+            relaxed = set()
+            for m in f.members:
+                for p in m.unsized:
+                    # which family parameter does the member's parameter p stand for? (identity unless nested)
+                    relaxed.add(p)
+            decl = [d.split(" = ")[0] if False else None for d in []]
+            lt_decl = [g[1] + (": " + g[2] if g[2] else "") for g in self.trait_generics if g[0] == "lt"]
+            gens = lt_decl + [n_ + (": ?Sized" if i in relaxed else "") for i, n_ in enumerate(fn)]
+            targs_txt = full_targs([pr(named(a, fn + fam_names[f.nparams:])) for a in f.targs])
+            # parameters that occur only in the trait arguments
+            used = set(i for _, i in params_of(f.self_ty))
+            for a in f.targs:
+                for _, i in params_of(a):
+                    if i >= f.nparams and i not in used:
+                        used.add(i)
+                        gens.append(fam_names[i])
+            where = []
+            projs = []
+            for k in f.keys:
+                d = self.dtraits[k.dt]
+                da = [pr(named(a, fam_names)) for a in k.dargs]
+                dref = d.name + ("<" + ", ".join(da) + ">" if da else "")
+                where.append(f"{pr(named(k.bounded, fam_names))}: {dref}")
+                projs.append(f"<{pr(named(k.bounded, fam_names))} as {dref}>::{k.assoc}")
+            # bounds the trait puts on its parameters, instantiated
+            tys = [g for g in self.trait_generics if g[0] != "lt"]
+            for g, a in zip(tys, targs_txt[nlt:]):
+                if g[0] == "ty" and g[2] and g[2] != "?Sized":
+                    where.append(f"{a}: {g[2]}")
+            hargs = targs_txt[:nlt] + projs + targs_txt[nlt:]
+            href = f"H{fi}" + ("<" + ", ".join(hargs) + ">" if hargs else "")
+            where.append(f"Self: {href}")
+            items = []
+            for kind, name, has_default in self.items:
+                if kind == "const":
+                    items.append(f"const {name}: &'static str = <Self as {href}>::{name};")
+                elif kind == "type":
+                    items.append(f"type {name} = <Self as {href}>::{name};")
+                elif kind == "fn":
+                    items.append(f"fn {name}() -> &'static str {{ <Self as {href}>::{name}() }}")
+                elif kind == "ltfn":
+                    items.append(f"fn {name}(x: &'a u8) -> &'a u8 {{ <Self as {href}>::{name}(x) }}")
+            tref_ = self.trait_name + ("<" + ", ".join(targs_txt) + ">" if targs_txt else "")
+            gtxt = "<" + ", ".join(gens) + ">" if gens else ""
+            lines.append(f"{uns}impl{gtxt} {tref_} for {pr(named(f.self_ty, fam_names))} where {', '.join(where)} {{ {' '.join(items)} }}")
+        lines.append("fn main() {")
+        for pi, (ty, targs) in enumerate(self.probes):
+            tr = self.trait_ref(targs)
+            lines.append(f'  print!("{pi} {{}}", impls!({ty}: {tr}));')
+            for kind, name, _ in self.items:
+                if kind in ("const",):
+                    lines.append(f'  print!(" {{}}", item_const!({ty}, {tr}, {name}));')
+                elif kind == "fn":
+                    lines.append(f'  print!(" {{}}", item_fn!({ty}, {tr}, {name}));')
+                elif kind == "type":
+                    lines.append(f'  print!(" {{}}", item_type!({ty}, {tr}, {name}));')
+            lines.append('  println!();')
+        lines.append("}")
+        return "\n".join(lines)
+
     def shadow_program(self):
         lines = [self.prelude()]
         nb = len(self.blocks())
